@@ -451,7 +451,23 @@ pub fn gen_c02(rng: &mut Rng) -> Value {
         audit_what: &["read", "reader", "read_hash"],
         wcfg: WriteCfg { by_hash_pct: 30, rich_opts: false, declare_size_pct: 50, algos: true, ends: false },
     };
-    gen_history(rng, &m)
+    let mut sc = gen_history(rng, &m);
+    // a content file left damaged (e.g. by an earlier crash of another process): a later successful write of the
+    // same bytes must still be readable afterwards
+    if rng.chance(1, 4) {
+        let nv = sc["vals"].as_array().map(|a| a.len()).unwrap_or(1);
+        let steps = sc["steps"].as_array_mut().unwrap();
+        let at = rng.idx(steps.len().saturating_sub(3).max(1));
+        let a = *rng.pick(&ALGOS);
+        let vi = rng.idx(nv);
+        let dmg = match rng.below(3) {
+            0 => json!({"k":"env","act":"truncate","content":{"val":vi,"algo":a},"len":0}),
+            1 => json!({"k":"env","act":"truncate_frac","content":{"val":vi,"algo":a},"num":rng.below(1000)}),
+            _ => json!({"k":"env","act":"flip_frac","content":{"val":vi,"algo":a},"num":rng.below(1000),"bit":rng.below(8)}),
+        };
+        steps.insert(at, dmg);
+    }
+    sc
 }
 
 pub fn gen_c05(rng: &mut Rng) -> Value {
@@ -536,7 +552,51 @@ pub fn gen_c05_exhaustive(index: u64, len: u32, rng: &mut Rng) -> Value {
     sc
 }
 
+/// two value seeds (12-byte values) whose sha256 digests share the first two bytes: their content files are
+/// neighbours in one shard directory (content-v2/sha256/xx/yy/)
+pub fn shard_mates() -> (u64, u64) {
+    use std::sync::OnceLock;
+    static PAIR: OnceLock<(u64, u64)> = OnceLock::new();
+    *PAIR.get_or_init(|| {
+        let mut seen: std::collections::BTreeMap<[u8; 2], u64> = std::collections::BTreeMap::new();
+        let mut seed = 1000u64;
+        loop {
+            let d = crate::hash::digest("sha256", &crate::interp::datagen_public(seed, 12));
+            let k = [d[0], d[1]];
+            if let Some(other) = seen.get(&k) {
+                return (*other, seed);
+            }
+            seen.insert(k, seed);
+            seed += 1;
+        }
+    })
+}
+
 pub fn gen_c09(rng: &mut Rng) -> Value {
+    if rng.chance(1, 10) {
+        // neighbours in one content shard directory: removing one address (present, absent, twice) never touches the other
+        let (a, b) = shard_mates();
+        let keys = pick_keys_p(rng, 3, 1, 3);
+        let vals = vec![json!({"seed": a, "len": 12}), json!({"seed": b, "len": 12})];
+        let mut steps = Vec::new();
+        let mut w = json!({"k":"api","op":"write","entry":"write","key":0,"val":0});
+        set_flav(&mut w, flav(rng));
+        steps.push(w);
+        let n = rng.range(1, 4);
+        for _ in 0..n {
+            let mut st = match rng.below(5) {
+                0 | 1 => json!({"k":"api","op":"remove_hash","addr":{"val":1,"algo":"sha256"}}),
+                2 => json!({"k":"api","op":"write","entry":"write","key":1,"val":1}),
+                3 => json!({"k":"api","op":"remove_opts","fully":true,"key":1}),
+                _ => json!({"k":"api","op":"remove_hash","addr":{"val":0,"algo":"sha256"}}),
+            };
+            set_flav(&mut st, flav(rng));
+            steps.push(st);
+            let f = flav(rng);
+            steps.push(json!({"k":"audit","bin":f.0,"mode":f.1,"what":["metadata","read","read_hash","exists","list"]}));
+        }
+        return scenario("C09", keys, vals, steps, rng);
+    }
     let m = Mix {
         check: "C09",
         nkeys: (2, 8),
